@@ -47,8 +47,8 @@ CHECKS = {
          "At most one request outstanding; follow-ups consecutive; initial request after reject/upgrade/completion naming anchor + all other unstable blocks; split block stored bit-identically; no block applied twice (also when the source offers a processed block again); bounded liveness after faults stop.",
          "Well-behaved source domain; 'eventually' as a bound."),
  "C14": ("generated flag/network/announced-header states probed on every endpoint against an independent gating decision",
-         "refuse <=> api disabled or foreign network or (sync flag and highest announced header > best+2; send_transaction exempt); refusals have no effect; get_config/get_blockchain_info always answer; independent model of the announced headers (complete and paged replies, heartbeat and direct driver with per-block difficulties).",
-         "The metrics endpoint cannot run natively and is not decided."),
+         "refuse <=> api disabled or foreign network or (sync flag and highest announced header > best+2; send_transaction exempt); refusals have no effect; get_config/get_blockchain_info and the metrics endpoint (http_request /metrics, run natively through hook stand-ins for its three system calls) always answer, metrics with status 200, no effect, and main_chain_height/is_synced/api_access agreeing with the state; independent model of the announced headers (complete and paged replies, heartbeat and direct driver with per-block difficulties).",
+         "The metrics endpoint is executed with stand-ins for time, stable_size and the cycle balance (hook e8fadfc3); its candid/http gateway layer is not."),
  "C15": ("observation-time model of nearest-rank percentiles over generated fee-paying histories incl. >10 000 transactions",
          "Same tip -> same value; new tip -> model percentiles (or previous if no transactions); 0 or 101 non-decreasing values; recomputation after upgrade equals the insertion-time cache; eager mode through the real heartbeat.",
          "The anchor counts among the best chain's unstable blocks."),
